@@ -111,7 +111,7 @@ Proof.
   - inv E. reflexivity.
   - inv E. reflexivity.
   - destruct H as [Hn _]. assert (b' <> b) by (intro; subst; contradiction).
-    unfold mark_moved in E. destruct (c_trivial cfg); [inv E; reflexivity|].
+    unfold mark_moved in E. destruct (c_quiet cfg); [inv E; reflexivity|].
     unfold bind in E. destruct (get_cell b' i s) as [c sx|sx|e] eqn:G; try discriminate.
     assert (sx = s).
     { unfold get_cell, bind, get_block in G. destruct (nth_error (s_blocks s) b') as [bk|]; try discriminate.
@@ -138,7 +138,7 @@ Proof.
     eapply triple_bind with (Q := fun _ s => st_le B s0 s /\ allinit s b N).
     { assert (T : triple (fun s => st_le B s0 s /\ allinit s b N) (tick_elem cfg w)
                          (fun _ s' => st_le B s0 s' /\ allinit s' b N)
-                         (fun s' => c_trivial cfg = false /\ (st_le B s0 s' /\ allinit s' b N) /\ In (EvThrow w) (s_ledger s'))).
+                         (fun s' => c_quiet cfg = false /\ (st_le B s0 s' /\ allinit s' b N) /\ In (EvThrow w) (s_ledger s'))).
       { apply tick_elem_spec.
         - intros s f [L A]. split; [apply st_le_set_fault; auto|exact A].
         - intros s e [L A]. split; [apply st_le_emit; auto|exact A]. }
@@ -214,7 +214,7 @@ Proof.
 Qed.
 
 (* in the trivial configuration every cell counts as constructed *)
-Lemma trivial_cells_ok cs : c_trivial cfg = true -> cells_ok cs.
+Lemma trivial_cells_ok cs : c_tdc cfg = true -> cells_ok cs.
 Proof. intros Ht. apply Forall_forall. intros c _. unfold LifeInv.cinit, cell_init. destruct c; auto. Qed.
 
 (* ---- sources that are cells of live array objects ---- *)
@@ -326,7 +326,7 @@ Proof.
     { intros Hin. destruct (inv_held _ _ _ I b Hin) as [_ Hno]. apply (Hno r). exists a. auto. }
     rewrite orb_false_r.
     assert (Hdealloc : forall s1 blk1, st_le [b] s s1 -> get_blk s1 b = Some blk1 ->
-              (c_trivial cfg = false -> all_raw (b_cells blk1) = true) ->
+              (c_tdtor cfg = false -> all_raw (b_cells blk1) = true) ->
               match dealloc cfg (a_alloc a) (a_base a) (nel a) s1 with
               | Ok _ s' => s_arrs s' = A /\ held_built H s' /\ forall o', nonowning o' -> Inv X (set_slot s' r o')
               | _ => False end).
@@ -343,7 +343,7 @@ Proof.
       { intros sx Esx b' a' n' Hin. assert (b' <> b) by (intro; subst; apply HbX; eapply HX; eauto).
         pose proof (built_st_le [b] s s1 b' a' n' L ltac:(intros [->|[]]; congruence) (HB b' a' n' Hin)) as (bk & Hk & Hrest).
         exists bk. split; auto. unfold get_blk in *. rewrite Esx. rewrite nth_upd_other; auto. }
-      destruct (c_trivial cfg) eqn:Ht; cbn [negb andb].
+      destruct (c_tdtor cfg) eqn:Ht; cbn [negb andb].
       - split; [cbn; congruence|]. split; [apply HB1; reflexivity|]. intros o' Ho'.
         eapply Inv_ext with (s := kill_blk (set_slot s1 r o') b blk1); [reflexivity|reflexivity|].
         apply Inv_free_held; [|exact Hb1|intros; congruence].
@@ -354,14 +354,15 @@ Proof.
         apply Inv_free_held; [|exact Hb1|auto].
         eapply Inv_st_le; [apply (Inv_unown cfg X s r a b o' I Hs Hp Hb Ho')|apply st_le_set_slot; exact L|].
         intros b' [<-|[]]. left; left; auto. }
-    destruct (c_trivial cfg) eqn:Ht; cbn [orb].
+    destruct (c_tdtor cfg) eqn:Ht; cbn [orb].
     + unfold bind; cbn [ret]. apply (Hdealloc s blk); auto. apply st_le_refl. intros; congruence.
     + unfold bind at 1. unfold base_blk. rewrite Hb. unfold bind at 1; cbn [ret].
       assert (Sh : shape s b (0 + nnel a) (nnel a)).
       { exists blk. repeat split; auto.
         - unfold nnel. rewrite Hlen, Hsz. reflexivity.
         - intros j c _ Hj. assert (Hc : cinit c) by (eapply Forall_forall; [exact Hok|eapply nth_error_In; eauto]).
-          intros ->. unfold LifeInv.cinit, cell_init in Hc. congruence.
+          intros ->. unfold LifeInv.cinit, cell_init in Hc. unfold c_tdtor in Ht. apply orb_false_iff in Ht.
+          destruct Ht as [Ht1 Ht2]. congruence.
         - intros j c Hj Hn. exfalso. assert (j < length (b_cells blk))%nat by (apply nth_error_Some; congruence).
           unfold nnel in Hj. rewrite Hlen, Hsz in H0. lia. }
       assert (T := destroy_range_spec cfg [b] s b 0 (nnel a) (or_introl eq_refl) (nnel a) s (conj (st_le_refl cfg [b] s) Sh)).
